@@ -34,13 +34,14 @@ struct Registry {
     uint64_t copies     = 0;
     uint64_t moves      = 0;
     uint64_t assigns    = 0;
+    uint64_t compares   = 0; // operator== calls on instrumented elements
 
     void reset()
     {
         live.clear();
         harnessHeld.clear();
         nextId     = 1;
-        constructs = destroys = copies = moves = assigns = 0;
+        constructs = destroys = copies = moves = assigns = compares = 0;
         reset_shadow();
     }
 
@@ -294,7 +295,11 @@ struct alignas(Tag >= 100 ? 32 : alignof(int)) TrackedT {
         *const_cast<int volatile*>(&v) = -9999;
     }
 
-    friend auto operator==(TrackedT const& a, TrackedT const& b) -> bool { return a.v == b.v; }
+    friend auto operator==(TrackedT const& a, TrackedT const& b) -> bool
+    {
+        ++reg().compares;
+        return a.v == b.v;
+    }
 
     friend auto operator!=(TrackedT const& a, TrackedT const& b) -> bool { return a.v != b.v; }
 
